@@ -12,10 +12,11 @@ HARNESSES = [
     Harness('frame', 'h_frame_x86_kf_C07A', unwind=6, known='C07A', bounds='region of known finding C07A: x86-32, final alignment 8 > natural alignment 4, no realignment; otherwise as h_frame_x86', mem_gb=4, timeout=600),
     Harness('frame', 'h_frame_x64', unwind=6, bounds='x86-64 (SysV, Win64, vectorcall, light-call 2-4, 32-bit ids mapped by platform): ' + B_FRAME, mem_gb=4, timeout=600),
     Harness('frame', 'h_frame_a64', unwind=6, bounds='AArch64 (AAPCS64/Apple, light-call): ' + B_FRAME, mem_gb=4, timeout=600),
-    Harness('prolog_x86', 'h_prolog_x64_sysv', unwind=17, bounds='tbd', mem_gb=6, timeout=900),
+    Harness('prolog_x86', 'h_prolog_x64_sysv', unwind=17, bounds='tbd', mem_gb=8, timeout=1500, flags=['--slice-formula']),
     Harness('prolog_x86', 'h_prolog_x64_win', unwind=17, bounds='tbd', mem_gb=6, timeout=900),
     Harness('prolog_x86', 'h_prolog_x86', unwind=17, bounds='tbd', mem_gb=6, timeout=900),
     Harness('prolog_x86', 'h_prolog_x86_kf_C07A', unwind=17, bounds='tbd', known='C07A', mem_gb=6, timeout=900),
+    Harness('prolog_x86', 'h_prolog_x64_kf_C07B', unwind=17, bounds='tbd', known='C07B', mem_gb=6, timeout=900),
     Harness('prolog_x86', 'h_prolog_x64_light', unwind=17, bounds='tbd', mem_gb=6, timeout=900, tiers=('thorough',)),
 ]
 EXPLANATION = 'bounded symbolic execution (CBMC) of the real FuncFrame::init/finalize and of the real x86/a64 emit_prolog/emit_epilog driving a model machine defined in the harness'
